@@ -113,6 +113,16 @@ def run(ctx, build):
                 f0.create_dataset('old', data=[1, 2, 3])
             hist['array_translator']['existing_output_file'] += 1
         code = 0
+        if defect is None and i % 4 in (0, 1):
+            # the caller's descriptor lists serve an earlier translation first (another file): they must come back as they were
+            hist['array_translator']['descriptor_lists_reused'] = hist['array_translator'].get('descriptor_lists_reused', 0) + 1
+            try:
+                with common.quiet():
+                    ArrayTranslator().translate(path + '.earlier.h5', name, raw_arg, quantity, 'nA', pos_arg, spec_arg, slow_to_fast=(i % 2 == 0))
+            except Exception:
+                pass
+            if os.path.exists(path + '.earlier.h5'):
+                os.remove(path + '.earlier.h5')
         try:
             with common.quiet():
                 ArrayTranslator().translate(path, name, raw_arg, quantity, 'nA', pos_arg, spec_arg, parm_dict=parms, extra_dsets=extra, slow_to_fast=(i % 2 == 0))
@@ -315,9 +325,21 @@ def run(ctx, build):
         if os.path.exists(h5p):
             os.remove(h5p)
         with h5py.File(h5p, 'w') as f:
+            if ci % 4 == 2:
+                # a first attempt into the (empty) group fails after the ancillaries were written (an HDF5 filter that does not
+                # exist): it must leave the group as it found it, so that the corrected call below succeeds
+                hist['labelled']['retry_after_failed_write'] = hist['labelled'].get('retry_after_failed_write', 0) + 1
+                g0 = f.create_group('G')
+                try:
+                    with common.quiet():
+                        hu.write_sidpy_dataset(dset, g0, compression='no-such-filter')
+                except Exception:
+                    pass
+                if list(g0.keys()):
+                    violate('write_sidpy_dataset', key, 'failed_write_leaves_members_behind', '%s | %s' % (sorted(g0.keys()), desc), desc)
             try:
                 with common.quiet():
-                    m = hu.write_sidpy_dataset(dset, f.create_group('G'))
+                    m = hu.write_sidpy_dataset(dset, f.require_group('G'))
             except Exception as e:
                 violate('write_sidpy_dataset', key, 'valid_dataset_rejected', '%r %s' % (e, desc), desc)
                 continue
